@@ -49,7 +49,8 @@ pub fn wall(z: &DateTime<FixedOffset>) -> Value {
 
 pub fn run(path: &str) -> Value {
     let data = std::fs::read_to_string(path).unwrap();
-    let (mut n, mut mism, mut can, mut perts, mut unbuilt) = (0u64, 0u64, 0u64, 0u64, 0u64);
+    let (mut n, mut mism, mut can, mut perts, mut unbuilt, mut inexpressible, mut inverted_anyway) = (0u64, 0u64, 0u64, 0u64, 0u64, 0u64, 0u64);
+    let mut samples: Vec<Value> = Vec::new();
     let mut by_ty = serde_json::Map::new();
     for line in data.lines() {
         if line.trim().is_empty() { continue; }
@@ -78,7 +79,18 @@ pub fn run(path: &str) -> Value {
             continue;
         }
         // 2. parsing inverts formatting for every value the format can express
-        if !b["can"].as_bool().unwrap() { continue; }
+        if !b["can"].as_bool().unwrap() {
+            // diagnostic only (never a mismatch): how often does the real reader return the would-be projection of a
+            // value the specification regards as not expressible? (measures how tight Expressible is)
+            if let (Some(t), true) = (&text, b["would"].get("none").is_none()) {
+                inexpressible += 1;
+                if guard(|| parse_as(ty, t, &fr)).ok() == Some(json!({"ok": b["would"]})) {
+                    inverted_anyway += 1;
+                    if samples.len() < 6 { samples.push(json!({"fw": fw, "v": b["v"], "text": t})); }
+                }
+            }
+            continue;
+        }
         can += 1;
         let t = text.unwrap();
         let expect = json!({"ok": b["parsed"]});
@@ -98,5 +110,6 @@ pub fn run(path: &str) -> Value {
             }
         }
     }
-    json!({"behaviours": n, "mismatches": mism, "expressible_round_trips": can, "perturbed_round_trips": perts, "values_not_built": unbuilt, "by_type": by_ty})
+    json!({"behaviours": n, "mismatches": mism, "expressible_round_trips": can, "perturbed_round_trips": perts, "values_not_built": unbuilt, "by_type": by_ty,
+           "diagnostic_inexpressible_values": inexpressible, "diagnostic_inexpressible_yet_inverted": inverted_anyway, "diagnostic_samples": samples})
 }
